@@ -483,7 +483,35 @@ func checkFunApply(z ast.ApplyFn, fnTpe ast.BaseTerm, varRanges map[ast.Variable
 	if err != nil {
 		return nil, fmt.Errorf("not a function type: %v", fnTpe)
 	}
+	// A type variable that occurs in several parameter positions stands for every actual type
+	// found there: fn:list:cons(X, [1]) with a string X is a list of strings and numbers.
+	actualsOfVar := make(map[ast.Variable][]ast.BaseTerm)
+	for i, argTpe := range argTypes {
+		collectTypeVarActuals(argTpe, actualTpes[i], actualsOfVar)
+	}
+	for v, actuals := range actualsOfVar {
+		if _, ok := subst[v]; ok && len(actuals) > 1 {
+			subst[v] = symbols.UpperBound(nil, actuals)
+		}
+	}
 	return res.ApplySubstBase(ast.SubstMap(subst)), nil
+}
+
+// collectTypeVarActuals walks a parameter type and the type of the actual argument in parallel and
+// records, for each type variable of the parameter type, the actual type found in its place.
+func collectTypeVarActuals(formal ast.BaseTerm, actual ast.BaseTerm, out map[ast.Variable][]ast.BaseTerm) {
+	switch f := formal.(type) {
+	case ast.Variable:
+		out[f] = append(out[f], actual)
+	case ast.ApplyFn:
+		a, ok := actual.(ast.ApplyFn)
+		if !ok || a.Function.Symbol != f.Function.Symbol || len(a.Args) != len(f.Args) {
+			return
+		}
+		for i, arg := range f.Args {
+			collectTypeVarActuals(arg, a.Args[i], out)
+		}
+	}
 }
 
 func boundOfArg(x ast.BaseTerm, varRanges map[ast.Variable]ast.BaseTerm, nameTrie symbols.NameTrie) ast.BaseTerm {
